@@ -170,4 +170,4 @@ def mutant_fails(fn, spec, timeout=20000, only=None):
     """labels of the obligations of a (mutated) function that are NOT proved under the sidecar contract"""
     E = run_function(fn, spec)
     if only is not None: E.obs = [ob for ob in E.obs if only(ob.label)]
-    return [rel_label(fn, ob.label) for ob, st, dt, det, mv in pyvc.decide_parallel(E, spec, timeout=timeout) if st != 'proved']
+    return [rel_label(fn, ob.label) for ob, st, dt, det, mv in pyvc.decide_parallel(E, spec, timeout=timeout, canary=True) if st != 'proved']
